@@ -17,13 +17,13 @@ TRUSTED = [
     'modelled, not verified: genshi/template/base.py Template._prepare/_include/_flatten, markup.py _extract_includes/_match '
     '(window of applicable match templates, select() as the content of the matched element), loader.py TemplateLoader.load path arithmetic, '
     'directives py:if/for/def/match, the filter pipelines of markup and text templates '
-    '(hand-written Lean model Genshi.Incl, tied by two-mode correspondence on generated directory trees, single and several requests per loader)',
+    '(hand-written Lean model Genshi.Incl, tied by two-mode correspondence on generated directory trees, single and several requests per loader, the loader\'s prepared templates after every request and after every load of a load-only sequence -- failed renders and preparations that failed part-way included --, and the three hypotheses inH / inHW / inHS evaluated in Lean and in Python on every tree)',
     'the printer from the abstract template language to genshi source text (harness/gen_c11.py source()) and the canonicaliser of event streams',
     'not modelled: expat / the text-template regex parser (templates are generated well-formed; one fixed ill-formed source per class is used for the '
     'eager-syntax-error finding), expression evaluation beyond variable look-up / truthiness / iteration / string splice, attributes, '
     'py:choose/with/attrs/content/replace/strip, macro arguments, match paths other than a single element name, selections other than *|text(), '
     'absolute paths, search-path load functions other than directories, the loader cache bound and mtime checks (C15), '
-    'after a render that hit the recursion limit (fuel 24 vs 420 Python frames: different sets loaded) or an ill-formed file (a preparation that fails part-way: the model drops what was prepared inside it) the sequences are no longer compared',
+    'after a render that hit the recursion limit the sequence is compared on (outcomes and loader state) only when the model answers it alike with fuel 24 and fuel 72 (saturation: the set of templates loaded does not depend on where the limit is); otherwise it is cut there (counted). Fuel and Python frames are different units (macro recursion runs on _flatten\'s explicit stack, match recursion in nested _match generators, includes in nested generate() calls)',
     'fuel stands for Python recursion depth: "terminates" is compared (model fuel 24, Python recursion limit 420, generated terminating trees far below, '
     'diverging ones far above), not the exact depth at which CPython gives up; trees whose rendering exceeds a deterministic work bound on the real code '
     '(loads, events, match templates, match-list walks) are skipped and counted',
@@ -123,9 +123,13 @@ def w_reqs(case):
             for e, d in G.requests(case)]
 
 
+FUEL2 = 3 * FUEL   # the second fuel of the saturation test (see the sequence comparison in shard())
+
+
 def seq_lines(case):
     files = w_files(case)
-    return [proto.line(Atom('C11'), Atom('chainc'), Atom(m), FUEL, files, w_reqs(case)) for m in ('inline', 'runtime')]
+    return [proto.line(Atom('C11'), Atom('chainc'), Atom(m), fuel, files, w_reqs(case))
+            for m in ('inline', 'runtime') for fuel in (FUEL, FUEL2)]
 
 
 def _split_top(toks):
@@ -160,7 +164,7 @@ def model_lines(case):
     files, data = w_files(case), w_data(case)
     kind = Atom(G.entry_kind(case))
     return [proto.line(Atom('C11'), Atom('render'), Atom(m), FUEL, files, case['entry'], kind, data)
-            for m in ('inline', 'runtime')] + [proto.line(Atom('C11'), Atom('inh'), files),
+            for m in ('inline', 'runtime')] + [proto.line(Atom('C11'), Atom('inh'), files, Atom('w')),
                                                proto.line(Atom('C11'), Atom('kept'), files, case['entry'], kind),
                                                proto.line(Atom('C11'), Atom('render'), Atom('inplace'), FUEL, files,
                                                           case['entry'], kind, data)]
@@ -267,6 +271,20 @@ def spec_stats(case):
     return sp.stats
 
 
+def fb_depth(nodes):
+    """deepest nesting of xi:fallback inside xi:fallback in a node list"""
+    d = 0
+    for n in nodes:
+        k = n[0]
+        if k in ('elem', 'if', 'def', 'match'):
+            d = max(d, fb_depth(n[2]))
+        elif k == 'for':
+            d = max(d, fb_depth(n[3]))
+        elif k == 'include' and n[3] is not None:
+            d = max(d, 1 + fb_depth(n[3]))
+    return d
+
+
 def shard(arg):
     seed, idx, n, mode = arg
     res = Result()
@@ -275,6 +293,10 @@ def shard(arg):
         rng = random.Random('%s/%s/%s/%s/C11' % (seed, mode, idx, i))
         if mode == 'zone':
             case = G.gen_case(rng, zone=True, illformed=rng.random() < 0.3)
+        elif mode == 'ill':
+            # one ill-formed file in an otherwise ordinary tree (inside inHW), several requests through one loader:
+            # preparations that fail part-way, at load time and inside run-time includes
+            case = G.gen_case(rng, illformed=True, seq=True)
         else:
             case = G.gen_case(rng)
         cases.append(case)
@@ -294,13 +316,35 @@ def shard(arg):
         if case.get('then') and not any(o[0] == 'skip' for o in real['inline_then'] + real['runtime_then']):
             seq_at[i] = len(lines)
             lines.extend(seq_lines(case))
+    lseq_at = {}
+    for i, (case, real, _, _) in enumerate(evald):
+        if real.get('load_seq') is not None:
+            lseq_at[i] = len(lines)
+            lines.append(proto.line(Atom('C11'), Atom('loads'), w_files(case),
+                                    [[n, Atom(G.kind_of_file(case, n))] for n in G.load_order(case)]))
     answers = proto.run_lines(lines)
     for i, (case, real, spec, fail) in enumerate(evald):
+        if i in lseq_at and answers[lseq_at[i]] != 'unmodelled':
+            # preparation alone: every file (and a missing name) loaded in turn through one loader with auto_reload off,
+            # nothing rendered -- outcome and the loader's prepared templates after each load, failed preparations included
+            ml = []
+            for item in _split_top(answers[lseq_at[i]].split()):
+                o, c = _split_top(item)
+                o = ' '.join(o)
+                ml.append(['ok' if o == 'ok' else model_outcome(o)[1], sorted(str(x) for x in proto.dec(' '.join(c)))])
+            res.streams['load-sequence'] = res.streams.get('load-sequence', 0) + 1
+            for o, c in real['load_seq']:
+                if o == 'TemplateSyntaxError':
+                    res.count('load-sequence:failed-preparation:%d-prepared-so-far' % min(len(c), 3))
+            if ml != real['load_seq']:
+                res.disagreements.append({'stream': 'load-sequence', 'case': case, 'model': repr(ml)[:600],
+                                          'real': repr(real['load_seq'])[:600], 'sources': sources(case)})
         if i in seq_at:
             res.count('requests-through-one-loader:%d' % len(G.requests(case)))
             for j, m in enumerate(('inline', 'runtime')):
-                dec = seq_outcomes(answers[seq_at[i] + j])
-                if dec is None:
+                dec = seq_outcomes(answers[seq_at[i] + 2 * j])
+                dec2 = seq_outcomes(answers[seq_at[i] + 2 * j + 1])
+                if dec is None or dec2 is None:
                     continue
                 mo, mc = dec
                 ro = [real[m]] + real[m + '_then']
@@ -311,7 +355,17 @@ def shard(arg):
                 # (the same after a TemplateSyntaxError: an ill-formed file -- outside the property's quantifier -- met
                 # while a template is being prepared leaves the templates prepared inside it before that point in the
                 # loader; the model's preparation drops its cache on an error)
-                CUT = (['err', 'RecursionError'], ['err', 'TemplateSyntaxError'])
+                # Saturation: fuel and Python frames are different units, so "which templates had been loaded when
+                # the limit was hit" is compared only where it does not depend on the limit: the model answers the
+                # whole sequence alike (outcomes and loader states) with fuel 24 and with fuel 72.  Then every
+                # template the endless descent ever loads is loaded within the first 24 levels, and the sequence is
+                # compared to its end.  Otherwise it is cut after the request that hit the limit, as before (counted).
+                CUT = (['err', 'RecursionError'],)
+                saturated = dec == dec2
+                if any(o in CUT for o in ro):
+                    res.count('sequence:RecursionError:' + ('saturated-no-cut' if saturated else 'not-saturated-cut'))
+                if saturated:
+                    CUT = ()
                 k = next((x + 1 for x, o in enumerate(ro) if o in CUT), len(ro))
                 if k < len(ro):
                     res.count('sequence:cut-after-%s' % ro[k - 1][1])
@@ -338,6 +392,7 @@ def shard(arg):
         res.count('outcome:' + (real['runtime'][0] if real['runtime'][0] == 'ok' else real['runtime'][1]))
         res.count('files:%d' % sum(len(d) for d in case['dirs']))
         res.count('entry:' + G.entry_kind(case))
+        res.count('fallback-nesting:%d' % max([fb_depth(f['body']) for d in case['dirs'] for _, f in d if 'body' in f] or [0]))
         if real['inline'] != real['runtime']:
             res.count('modes-differ:' + ('inside' if inh else 'outside-hypothesis'))
         st = spec_stats(case)
@@ -358,16 +413,32 @@ def shard(arg):
             if mo != real[m]:
                 res.disagreements.append({'stream': 'render-' + m, 'case': case, 'model': repr(mo)[:600],
                                           'real': repr(real[m])[:600], 'sources': sources(case)})
-        lean_inh = answers[NL * i + 2] == 'T'
+        lean_inh, lean_inhw, lean_inhs = [x == 'T' for x in answers[NL * i + 2].strip('() ').split()]
         res.streams['hypothesis'] = res.streams.get('hypothesis', 0) + 1
         if lean_inh != G.in_hypothesis(case):
             res.disagreements.append({'stream': 'hypothesis', 'case': case, 'model': repr(lean_inh),
                                       'real': repr(G.in_hypothesis(case)), 'sources': sources(case)})
+        # inHW (ill-formed files allowed): where the theorem inline_eq_runtime_illformed_partial speaks
+        inhw = G.in_hypothesis_w(case)
+        res.streams['hypothesis-w'] = res.streams.get('hypothesis-w', 0) + 1
+        if lean_inhw != inhw:
+            res.disagreements.append({'stream': 'hypothesis-w', 'case': case, 'model': repr(lean_inhw),
+                                      'real': repr(inhw), 'sources': sources(case)})
+        inhs = G.in_hypothesis_s(case)
+        res.streams['hypothesis-s'] = res.streams.get('hypothesis-s', 0) + 1
+        if lean_inhs != inhs:
+            res.disagreements.append({'stream': 'hypothesis-s', 'case': case, 'model': repr(lean_inhs),
+                                      'real': repr(inhs), 'sources': sources(case)})
+        if inhw and not G.static_targets_wellformed(case) and G.modelled(case):
+            a, b = real['inline'], real['runtime']
+            res.count('ill-formed-inside-inHW:' + ('modes-agree' if a == b else
+                                                   'inline-raises-syntax-error-only' if a == ['err', 'TemplateSyntaxError'] else
+                                                   'OTHER'))
         # the Lean specification evaluator (an include is rendered as its target's nodes in place), where
         # `runtime_eq_spec_partial` speaks (no match template defined in the file set): against the real code
         sa = answers[NL * i + 4]
         if sa == 'na':
-            res.count('spec-lean:file-set-has-match-templates')
+            res.count('spec-lean:match-templates-outside-inHS')
         else:
             so = model_outcome(sa)
             if so is None:
@@ -375,6 +446,8 @@ def shard(arg):
             else:
                 res.streams['spec-lean'] = res.streams.get('spec-lean', 0) + 1
                 res.count('spec-lean:' + (so[0] if so[0] == 'ok' else so[1]))
+                if G.case_match_tags(case):
+                    res.count('spec-lean:with-match-templates' + (':match-applied' if st.get('match-applied') or st.get('match-applied-across-files') else ''))
                 if st.get('include-found') or st.get('include-fallback'):
                     res.count('spec-lean:with-includes')
                 if so != real['runtime']:
@@ -453,6 +526,12 @@ def corpus_shard(arg):
     lines = []
     for case, _ in evald:
         lines.extend(model_lines(case))
+    seq_at = {}
+    for i, (case, real) in enumerate(evald):
+        outs = [real['inline'], real['runtime']] + real['inline_then'] + real['runtime_then']
+        if case.get('then') and not any(o[0] == 'skip' or o == ['err', 'RecursionError'] for o in outs):
+            seq_at[i] = len(lines)
+            lines.extend(seq_lines(case))
     answers = proto.run_lines(lines)
     for i, (case, real) in enumerate(evald):
         for j, m in enumerate(('inline', 'runtime')):
@@ -462,6 +541,21 @@ def corpus_shard(arg):
             res.streams['corpus-' + m] = res.streams.get('corpus-' + m, 0) + 1
             if mo != real[m]:
                 res.disagreements.append({'stream': 'corpus-' + m, 'case': case, 'model': repr(mo)[:600], 'real': repr(real[m])[:600]})
+        if i in seq_at:
+            # several requests through one loader: outcomes in both modes, and the loader's prepared templates after
+            # every request (failed ones included) in inline mode
+            for j, m in enumerate(('inline', 'runtime')):
+                dec = seq_outcomes(answers[seq_at[i] + 2 * j])
+                if dec is None:
+                    continue
+                mo, mc = dec
+                ro = [real[m]] + real[m + '_then']
+                res.streams['corpus-sequence-' + m] = res.streams.get('corpus-sequence-' + m, 0) + 1
+                if mo != ro:
+                    res.disagreements.append({'stream': 'corpus-sequence-' + m, 'case': case, 'model': repr(mo)[:600], 'real': repr(ro)[:600]})
+                if m == 'inline' and mc != real['inline_prepared']:
+                    res.disagreements.append({'stream': 'corpus-loader-after-request', 'case': case, 'model': repr(mc)[:600],
+                                              'real': repr(real['inline_prepared'])[:600]})
     return res
 
 
@@ -471,7 +565,9 @@ def run(ctx):
         nsh = 16
         per = ctx.n(100, 3200)           # inside the hypothesis: 1 600 / 51 200 trees
         perz = ctx.n(30, 800)            # outside it (zone / ill-formed): correspondence only
-        args = [(ctx.seed, i, per, 'in') for i in range(nsh)] + [(ctx.seed, i, perz, 'zone') for i in range(nsh)]
+        peri = ctx.n(15, 400)            # one ill-formed file, inside inHW, sequences: preparations failing part-way
+        args = ([(ctx.seed, i, per, 'in') for i in range(nsh)] + [(ctx.seed, i, perz, 'zone') for i in range(nsh)] +
+                [(ctx.seed, i, peri, 'ill') for i in range(nsh)])
         for r in pmap('harness.props.c11', 'corpus_shard', [0], procs=1):
             res.merge(r)
         for r in pmap('harness.props.c11', 'shard', args, procs=16):
